@@ -376,6 +376,15 @@ func run(r *Rng, tier string, n int) {
 			}
 		}
 	}
+	// names are octet strings: a multi-octet UTF-8 character (or an invalid UTF-8 octet) right before the
+	// backslashes that precede a dot must not change how many of them there are
+	for _, pre := range []string{"\xc3\xa9", "\xe6\x97\xa5", "\xf0\x9f\x98\x80", "\xff", "a", "x.\xc3\xa9", "\xc3\xa9\xc3\xa9"} {
+		for k := 0; k <= 4; k++ {
+			oracleString(pre+strings.Repeat("\\", k)+".", k <= 2)
+			oracleString(pre+strings.Repeat("\\", k)+".tld.", false)
+			oracleString("w."+pre+strings.Repeat("\\", k)+".", false)
+		}
+	}
 	oracleLabels(nil, true) // root
 	// (3) escape spellings
 	for c := 0; c < 256; c++ {
